@@ -532,9 +532,10 @@ Inductive cmethod := MGet | MHead | MPost.
 
 (* what the respondent knows once the head is parsed *)
 Record pinfo := { pi_status : N; pi_json : bool; pi_ctype : bool; pi_sse : bool;
+                  pi_dead : bool;    (* the EventSource in use has a finished parser (it raised LineTooLong before) *)
                   pi_redirect : bool; pi_location : ustr }.
-Definition pinfo0 (status : N) : pinfo :=
-  {| pi_status := status; pi_json := false; pi_ctype := false; pi_sse := false;
+Definition pinfo0 (dead : bool) (status : N) : pinfo :=
+  {| pi_status := status; pi_json := false; pi_ctype := false; pi_sse := false; pi_dead := dead;
      pi_redirect := false; pi_location := [] |}.
 
 Definition resp_length (status : N) (m : cmethod) (h : hdrs) : option N :=
@@ -560,7 +561,17 @@ Inductive qst :=
 
 (* EventSource.parse: decoding uses errors='replace'; the only raise left is
    parseLine's LineTooLong, external here ([long]) *)
-Definition sse_site (long : bool) : res unit := if long then Exc HTTPExc else Ok tt.
+(* an event line longer than the limit among the event bytes received so far: a terminated line
+   of more than 65536 bytes, or more than 65537 bytes without a terminator (CR or LF) *)
+Fixpoint seg_long (b : bytes) (cur : N) : bool :=
+  match b with
+  | [] => MAXL + 1 <? cur
+  | x :: r => if N.eqb x 10 || N.eqb x 13 then (MAXL <? cur) || seg_long r 0 else seg_long r (cur + 1)
+  end.
+Definition sse_too_long (body : bytes) : bool := seg_long body 0.
+(* EventSource.parse: LineTooLong once; the parser is then finished and later calls do nothing *)
+Definition sse_site (dead : bool) (body : bytes) : res unit :=
+  if negb dead && sse_too_long body then Exc HTTPExc else Ok tt.
 
 Inductive qres :=
 | QNeed (s : qst) (body : bytes) (b : bytes)
@@ -573,13 +584,13 @@ Definition is_nil {A} (l : list A) : bool := match l with [] => true | _ => fals
 (* One call of Respondent.parse().  [closed]: respondent.closed; [chk]: the
    next thing the generator does is the `closed and not msg` test in front of
    a next() on a sub-generator; [sevt]: .evented left by the previous response *)
-Fixpoint resp_run (fuel : nat) (m : cmethod) (closed sse_long sevt : bool) (chk : bool)
+Fixpoint resp_run (fuel : nat) (m : cmethod) (closed sdead sevt : bool) (chk : bool)
          (s : qst) (status0 : N) (body0 : bytes) (b : bytes) : qres :=
   match fuel with
   | O => QOut
   | S fuel' =>
     let premature := chk && closed && is_nil b in
-    let run := resp_run fuel' m closed sse_long sevt in
+    let run := resp_run fuel' m closed sdead sevt in
     match s with
     | QStart _ =>
       match b with
@@ -587,37 +598,38 @@ Fixpoint resp_run (fuel : nat) (m : cmethod) (closed sse_long sevt : bool) (chk 
       | _ => run true QLine status0 body0 b
       end
     | QLine =>
-      if premature then QFail HTTPExc (pinfo0 status0) body0 b else
+      if premature then QFail HTTPExc (pinfo0 sdead status0) body0 b else
       match line_lf b with
       | Need => QNeed s body0 b
-      | Fail k r => QFail k (pinfo0 status0) body0 r
+      | Fail k r => QFail k (pinfo0 sdead status0) body0 r
       | Got l rest =>
         match status_line l with
-        | Exc k => QFail k (pinfo0 status0) body0 rest
+        | Exc k => QFail k (pinfo0 sdead status0) body0 rest
         | Ok (v, st) =>
           if N.eqb st 100 then run true (QCont []) status0 body0 rest
-          else if negb (version_ok v) then QFail HTTPExc (pinfo0 st) body0 rest
+          else if negb (version_ok v) then QFail HTTPExc (pinfo0 sdead st) body0 rest
           else run true (QHead st []) st body0 rest
         end
       end
     | QCont h =>
-      if premature then QFail HTTPExc (pinfo0 status0) body0 b else
+      if premature then QFail HTTPExc (pinfo0 sdead status0) body0 b else
       match leader_step h b with
       | Need => QNeed s body0 b
-      | Fail k r => QFail k (pinfo0 status0) body0 r
+      | Fail k r => QFail k (pinfo0 sdead status0) body0 r
       | Got (inl h') rest => run false (QCont h') status0 body0 rest
       | Got (inr _) rest => run true QLine status0 body0 rest
       end
     | QHead st h =>
-      if premature then QFail HTTPExc (pinfo0 st) body0 b else
+      if premature then QFail HTTPExc (pinfo0 sdead st) body0 b else
       match leader_step h b with
       | Need => QNeed s body0 b
-      | Fail k r => QFail k (pinfo0 st) body0 r
+      | Fail k r => QFail k (pinfo0 sdead st) body0 r
       | Got (inl h') rest => run false (QHead st h') st body0 rest
       | Got (inr h') rest =>
         let ct := negb (is_nil (hget_str h' "content-type")) in
         let pi := {| pi_status := st; pi_json := is_json h'; pi_ctype := ct;
                      pi_sse := if ct then is_sse h' else sevt;
+                     pi_dead := if ct && is_sse h' then false else sdead;   (* a new EventSource per event-stream head *)
                      pi_redirect := is_redirect st; pi_location := hget_str h' "location" |} in
         (* parseBody: chunked takes precedence even over the forced length 0 *)
         if is_chunked h' then run true (QChunk pi CSize []) st [] rest
@@ -639,7 +651,7 @@ Fixpoint resp_run (fuel : nat) (m : cmethod) (closed sse_long sevt : bool) (chk 
         (* after a data chunk: events are parsed, and a closed drained stream ends the body *)
         match c, c' with
         | CEnd _, CSize =>
-          match (if pi_sse pi then sse_site sse_long else Ok tt) with
+          match (if pi_sse pi then sse_site (pi_dead pi) body' else Ok tt) with
           | Exc k => QFail k pi body' rest
           | Ok _ =>
             if closed && is_nil rest then QDone pi body' rest
@@ -651,7 +663,7 @@ Fixpoint resp_run (fuel : nat) (m : cmethod) (closed sse_long sevt : bool) (chk 
       end
     | QClose pi body =>
       let body' := body ++ b in
-      match (if pi_sse pi then sse_site sse_long else Ok tt) with
+      match (if pi_sse pi then sse_site (pi_dead pi) body' else Ok tt) with
       | Exc k => QFail k pi body' []
       | Ok _ => if closed then QDone pi body' [] else QNeed (QClose pi body') body' []
       end
@@ -701,7 +713,11 @@ Definition redirect_site (o : url_oracle) (n : net_oracle) (location : ustr) : r
             (bind (urlsplit o loc) (fun s => bind (url_port (u_netloc s)) (fun pt => Ok s))) with
     | Exc k => Exc k
     | Ok s =>
-      if starts_with [47; 47] (u_path s) then Exc HTTPExc else    (* Requester.build would re-split it as host:port *)
+      (* Requester.build splits the path again: refused when that yields a scheme or a host *)
+      match urlsplit o (u_path s) with
+      | Exc _ => Exc HTTPExc
+      | Ok s2 =>
+      if negb (is_nil (u_scheme s2)) || negb (is_nil (u_netloc s2)) then Exc HTTPExc else
       let host := url_hostname (u_netloc s) in
       match host with
       | [] => Ok tt                                         (* relative: same connection *)
@@ -710,6 +726,7 @@ Definition redirect_site (o : url_oracle) (n : net_oracle) (location : ustr) : r
              | Ok h => if resolves n h then Ok tt else Exc HTTPExc   (* OSErr -> InvalidURL *)
              end
       end
+      end
     end
   end.
 
@@ -717,20 +734,20 @@ Record response := { rp_status : N; rp_errored : bool; rp_body : bytes; rp_redir
 
 Record client := { k_buf : bytes; k_pst : qst; k_waited : bool; k_queued : N;
                    k_cutoff : bool; k_closed : bool; k_status : N; k_body : bytes;
-                   k_evented : bool; k_nredir : N; k_responses : list response;
+                   k_evented : bool; k_sse_dead : bool; k_nredir : N; k_responses : list response;
                    k_method : cmethod }.   (* respondent.method, set by respondent.reinit(method=requester.method) at every transmit *)
 
 Record cconf := { cf_method : cmethod; cf_redirectable : bool; cf_dictable : bool;
-                  cf_sse_long : bool; cf_json : jmap }.
+                  cf_json : jmap }.
 
 Definition client0 (nreq : N) : client :=
   {| k_buf := []; k_pst := QStart true; k_waited := false; k_queued := nreq;
      k_cutoff := false; k_closed := false; k_status := 0; k_body := [];
-     k_evented := false; k_nredir := 0; k_responses := []; k_method := MGet |}.
+     k_evented := false; k_sse_dead := false; k_nredir := 0; k_responses := []; k_method := MGet |}.
 
 (* the response has ended (parsed or errored): Client.serviceResponse after parse() *)
 Definition client_ended (cf : cconf) (o : url_oracle) (n : net_oracle) (k : client)
-           (queued : N) (errored : bool) (pi : pinfo) (body buf : bytes) (cut closed : bool)
+           (queued : N) (errored : bool) (pi : pinfo) (body buf : bytes) (cut closed dead : bool)
   : res client :=
   match dictify_site (pi_json pi || cf_dictable cf) (json_of (cf_json cf) body) with
   | Exc e => Exc e
@@ -738,12 +755,12 @@ Definition client_ended (cf : cconf) (o : url_oracle) (n : net_oracle) (k : clie
     if pi_sse pi then   (* evented: no response entry, still waited *)
       Ok {| k_buf := buf; k_pst := QStart true; k_waited := true; k_queued := queued;
             k_cutoff := cut; k_closed := closed; k_status := pi_status pi; k_body := body;
-            k_evented := true; k_nredir := k_nredir k; k_responses := k_responses k; k_method := k_method k |}
+            k_evented := true; k_sse_dead := dead; k_nredir := k_nredir k; k_responses := k_responses k; k_method := k_method k |}
     else
       let deliver (err : bool) :=
         Ok {| k_buf := buf; k_pst := QStart true; k_waited := false; k_queued := queued;
               k_cutoff := cut; k_closed := closed; k_status := pi_status pi; k_body := body;
-              k_evented := false; k_nredir := 0;
+              k_evented := false; k_sse_dead := dead; k_nredir := 0;
               k_responses := k_responses k ++
                 [{| rp_status := pi_status pi; rp_errored := err; rp_body := body;
                     rp_redirects := k_nredir k |}]; k_method := k_method k |} in
@@ -754,7 +771,7 @@ Definition client_ended (cf : cconf) (o : url_oracle) (n : net_oracle) (k : clie
         | Ok _ =>   (* followed: request retransmitted, respondent.reinit() clears status, evented *)
           Ok {| k_buf := buf; k_pst := QStart true; k_waited := true; k_queued := queued;
                 k_cutoff := cut; k_closed := closed; k_status := 0; k_body := body;
-                k_evented := false; k_nredir := k_nredir k + 1; k_responses := k_responses k;
+                k_evented := false; k_sse_dead := dead; k_nredir := k_nredir k + 1; k_responses := k_responses k;
                 k_method := cf_method cf |}   (* redirect() re-sends with the redirected request's method *)
         end
       else deliver errored
@@ -771,7 +788,7 @@ Definition client_round (cf : cconf) (o : url_oracle) (n : net_oracle) (k : clie
     else (k_waited k, k_queued k, k_status k, k_evented k, k_method k) in
   let k := {| k_buf := k_buf k; k_pst := k_pst k; k_waited := k_waited k; k_queued := k_queued k;
               k_cutoff := k_cutoff k; k_closed := k_closed k; k_status := k_status k;
-              k_body := k_body k; k_evented := k_evented k; k_nredir := k_nredir k;
+              k_body := k_body k; k_evented := k_evented k; k_sse_dead := k_sse_dead k; k_nredir := k_nredir k;
               k_responses := k_responses k; k_method := meth |} in
   (* serviceResponse: receive *)
   let buf := k_buf k ++ r_data r in
@@ -779,26 +796,26 @@ Definition client_round (cf : cconf) (o : url_oracle) (n : net_oracle) (k : clie
   if negb waited then
     Ok {| k_buf := buf; k_pst := k_pst k; k_waited := false; k_queued := queued;
           k_cutoff := cut; k_closed := closed; k_status := status; k_body := k_body k;
-          k_evented := evented; k_nredir := k_nredir k; k_responses := k_responses k; k_method := meth |}
+          k_evented := evented; k_sse_dead := k_sse_dead k; k_nredir := k_nredir k; k_responses := k_responses k; k_method := meth |}
   else
     (* a fresh parseMessage generator clears .closed on its first step *)
     let closed' := match k_pst k with QStart true => false | _ => closed end in
-    match resp_run (6 + 2 * List.length buf) meth closed' (cf_sse_long cf) evented true
+    match resp_run (6 + 2 * List.length buf) meth closed' (k_sse_dead k) evented true
                    (k_pst k) status (k_body k) buf with
     | QOut => Exc OtherErr
     | QNeed s' body' b' =>
       Ok {| k_buf := b'; k_pst := s'; k_waited := true; k_queued := queued;
             k_cutoff := cut; k_closed := closed'; k_status := status; k_body := body';
-            k_evented := evented; k_nredir := k_nredir k; k_responses := k_responses k; k_method := meth |}
+            k_evented := evented; k_sse_dead := k_sse_dead k; k_nredir := k_nredir k; k_responses := k_responses k; k_method := meth |}
     | QFail HTTPExc pi body' b' =>
       (* parseMessage / serviceResponse: errored, ended *)
       client_ended cf o n k queued true
                    {| pi_status := pi_status pi; pi_json := pi_json pi; pi_ctype := pi_ctype pi;
-                      pi_sse := if pi_ctype pi then pi_sse pi else evented;
+                      pi_sse := if pi_ctype pi then pi_sse pi else evented; pi_dead := pi_dead pi;
                       pi_redirect := pi_redirect pi; pi_location := pi_location pi |}
-                   body' b' cut closed'
+                   body' b' cut closed' (pi_dead pi || (pi_sse pi && sse_too_long body'))
     | QFail e _ _ _ => Exc e
-    | QDone pi body' b' => client_ended cf o n k queued false pi body' b' cut closed'
+    | QDone pi body' b' => client_ended cf o n k queued false pi body' b' cut closed' (pi_dead pi)
     end.
 
 Fixpoint client_run (cf : cconf) (o : url_oracle) (n : net_oracle) (k : client) (rs : list rnd)
@@ -868,7 +885,7 @@ Definition run_case (c : case) : res (conn + client) :=
     | Exc k => Exc k | Ok s => Ok (inl s) end
   | Client m nreq rd dc =>
     let cf := {| cf_method := m; cf_redirectable := rd; cf_dictable := dc;
-                 cf_sse_long := false; cf_json := x_json c |} in
+                 cf_json := x_json c |} in
     match client_run cf o (mk_net (x_resolves c)) (client0 nreq) (x_rounds c) with
     | Exc k => Exc k | Ok s => Ok (inr s) end
   end.
